@@ -12,6 +12,7 @@ offset.  Hypothesis `RecOK`: a record's length field fits the on-disk `uint32`
 Helper lemmas: `Wal/RecordLemmas.lean`, `Wal/ManagerLemmas.lean`.
 -/
 import NoKVModel.Wal.ManagerLemmas
+import NoKVModel.Wal.BufferedLemmas
 import NoKVModel.Wal.Crc
 
 namespace NoKV.Props.C13
@@ -121,6 +122,32 @@ theorem C13_history_bytes (c : WalCfg) (hc : c.Good) (crc : Bytes → Nat) (segS
   simp only [openSegs] at hfresh ⊢
   exact (runX_clean c hc crc segSize xs ⟨1, []⟩ [] [] [] hfresh hr).1
 
+/-! ### the buffered manager (`Wal/Buffered.lean`): AppendRecords batches, flush points, switches -/
+
+/-- **Refinement.**  On the manager with its `bufio.Writer` explicit — `AppendRecords` batches of
+any length (capacity rotations may fall between any two records of a batch; `SyncOnWrite` or
+not), `Rotate`, `Sync`, `SwitchSegment(activeID, false)` (the LSM's resume call), crash/recover
+rounds — what a reader sees after a flush is exactly what the unbuffered model `runX` produces
+for the same history with batches expanded into single appends.  Nothing buffered is lost or
+duplicated at a flush point or a segment switch; flushing early or late makes no difference. -/
+theorem C13_buffered_refines (c : WalCfg) (crc : Bytes → Nat) (segSizeRaw : Nat) (sow : Bool) (xs : List BOp) :
+    (runB c crc (bopen segSizeRaw sow []) xs).view
+      = runX c crc (effSegSize segSizeRaw) (openSegs []) (expandB xs) := by
+  obtain ⟨h1, h2, h3⟩ := bopen_fresh segSizeRaw sow
+  obtain ⟨_, r2⟩ := runB_refines c crc xs _ h1
+  rw [r2, h2, h3]
+
+/-- **Whole histories on the buffered manager.**  Any interleaving of `AppendRecords` batches,
+rotations, syncs, resume-switches and crash/recover rounds, any configured segment size, either
+`SyncOnWrite` mode: after a final flush, replay yields exactly the acknowledged records as the
+specification `gRun` lists them (batches expanded), status ok. -/
+theorem C13_buffered_history (c : WalCfg) (hc : c.Good) (crc : Bytes → Nat) (segSizeRaw : Nat) (sow : Bool)
+    (xs : List BOp) (hr : ∀ r ∈ appendedX (expandB xs), RecOK r) :
+    replaySegs c crc (runB c crc (bopen segSizeRaw sow []) xs).view
+      = (flatR (gRun (effSegSize segSizeRaw) [[]] (expandB xs)), .ok) := by
+  rw [C13_buffered_refines]
+  exact C13_history c hc crc (effSegSize segSizeRaw) (expandB xs) hr
+
 /-
 FULL-STRENGTH STATEMENT the property demands for reopen-and-append: `C13_reopen_append` above
 (every history, every cut offset n, VerifyDir ok, reopen with any segment size, any further
@@ -211,5 +238,19 @@ example :
         [.op (.append ⟨1, [0x61, 0x61]⟩), .op (.append ⟨2, [0x62, 0x62]⟩), .crash 13,
          .op (.append ⟨3, [0xaa]⟩), .crash 17, .op .rotate, .op (.append ⟨4, []⟩)])
       = [⟨1, [0x61, 0x61]⟩, ⟨4, []⟩] := by decide +kernel
+
+/-- buffered manager, SyncOnWrite, segment size 40: one AppendRecords call of three records whose
+capacity rotation falls between the second and the third (the first two stay buffered while the
+segment is switched), then a resume-switch and one more record: all four are replayed, in order,
+from two segments -/
+example :
+    replaySegs WalCfg.good crc32c
+      (runB WalCfg.good crc32c ⟨[⟨1, []⟩], ⟨1, 0, [], 40, true⟩⟩
+        [.batch [⟨1, [0x61]⟩, ⟨2, [0x62, 0x62]⟩, ⟨3, [0x63, 0x63, 0x63, 0x63, 0x63, 0x63, 0x63, 0x63, 0x63, 0x63, 0x63, 0x63]⟩],
+         .switchSame, .batch [⟨0, []⟩]]).view
+      = ([⟨1, [0x61]⟩, ⟨2, [0x62, 0x62]⟩, ⟨3, [0x63, 0x63, 0x63, 0x63, 0x63, 0x63, 0x63, 0x63, 0x63, 0x63, 0x63, 0x63]⟩, ⟨0, []⟩], .ok)
+    ∧ (runB WalCfg.good crc32c ⟨[⟨1, []⟩], ⟨1, 0, [], 40, true⟩⟩
+        [.batch [⟨1, [0x61]⟩, ⟨2, [0x62, 0x62]⟩, ⟨3, [0x63, 0x63, 0x63, 0x63, 0x63, 0x63, 0x63, 0x63, 0x63, 0x63, 0x63, 0x63]⟩]]).dir.map (·.id)
+      = [2, 1] := by decide +kernel
 
 end NoKV.Props.C13
